@@ -238,6 +238,10 @@ class State(object):
     def addr(self, p):
         if isinstance(p, Ptr):
             return self.ralloc(p.alloc).base + p.off
+        if isinstance(p, VT):
+            return 0x6FFF0000 if p.id == PAYLOAD_VT else 0x70000000 + 256 * p.id
+        if isinstance(p, FnPtrV):
+            return 0x60000000 + 16 * p.fn
         return p
 
     def find_alloc_by_addr(self, addr):
@@ -275,7 +279,7 @@ class State(object):
                         return (v >> (8 * k)) & 0xFF
                     if z3.is_bv(v):
                         return z3.Extract(8 * k + 7, 8 * k, v)
-                    if isinstance(v, Ptr):
+                    if isinstance(v, (Ptr, VT, FnPtrV)):
                         return (self.addr(v) >> (8 * k)) & 0xFF
                     raise Unsupported("byte read of %r" % (v,))
                 return None
@@ -312,7 +316,7 @@ class State(object):
                 continue
             # partial overlap: keep the bytes outside the range
             del cells[o]
-            if isinstance(v, Ptr):
+            if isinstance(v, (Ptr, VT, FnPtrV)):
                 v = self.addr(v)
             if isinstance(v, int) or z3.is_bv(v):
                 for k in range(s):
@@ -361,7 +365,7 @@ class State(object):
         return out
 
     def _split_into(self, out, o, s, v, off, end):
-        if isinstance(v, Ptr):
+        if isinstance(v, (Ptr, VT, FnPtrV)):
             v = self.addr(v)
         if not (isinstance(v, int) or z3.is_bv(v)):
             return
